@@ -15,6 +15,12 @@ extra_fields = {
 }
 
 
+@spec
+def reported_outs(op):
+    """ghost: the number of outputs the operation reports once add_op has wired it (DataflowOp.num_out; per class: C06)"""
+    return ghost("num_out_after_wiring", "int", op)
+
+
 @contract("hugr.build.dfg.DfBase.add", props=[])
 class add_rec:
     trusted = True
@@ -30,7 +36,9 @@ class add_rec:
 
     def ensures(self, com, metadata, result):
         return {"op": eq(self._ta_op, concat(old(self._ta_op), Seq(DataflowOp, com.op))), "node": eq(self._ta_node, concat(old(self._ta_node), Seq(Node, result))),
-                "links_untouched": eq(self.hugr._tl_src, old(self.hugr._tl_src)) and eq(self.hugr._tl_dst, old(self.hugr._tl_dst)), "handle": result.idx >= 0}
+                "links_untouched": eq(self.hugr._tl_src, old(self.hugr._tl_src)) and eq(self.hugr._tl_dst, old(self.hugr._tl_dst)), "handle": result.idx >= 0,
+                # as proved for add_op (contracts/build_io.py, P_handle_knows_the_output_count), which add hands the command to
+                "handle_count": notNone(result._num_out_ports) and the(result._num_out_ports) == reported_outs(com.op)}
 
 
 @contract("hugr.hugr.base.Hugr.add_link", props=[])
@@ -47,7 +55,7 @@ class add_link_rec:
         return {"src": eq(self._tl_src, concat(old(self._tl_src), Seq(OutPort, src))), "dst": eq(self._tl_dst, concat(old(self._tl_dst), Seq(InPort, dst)))}
 
 
-@contract("hugr.build.dfg.DfBase.load#node", props=["C14"])
+@contract("hugr.build.dfg.DfBase.load#node", props=["C14", "C16"])
 class load_node:
     types = {"const": "Node", "const_parent": "Opt[Node]"}
     exact_self = True
@@ -76,6 +84,7 @@ class load_node:
             "P_load_has_the_reported_type": n_a == len(old(self._ta_op)) + 1 and cls_is(op, LoadConst) and notNone(as_cls(op, LoadConst)._typ)
             and same_obj(the(as_cls(op, LoadConst)._typ), ghost("vtype", "Type", value)),
             "P_returns_the_load_node": eq(result, nth(self._ta_node, n_a - 1)),
+            "P_handle_knows_the_output_count": notNone(result._num_out_ports) and the(result._num_out_ports) == reported_outs(op),
             "P_linked_to_the_constant": n_l == len(old(h._tl_src)) + 1 and eq(nth(h._tl_src, n_l - 1), OutPort(const, 0)) and eq(nth(h._tl_dst, n_l - 1), InPort(result, 0)),
         }
 
@@ -105,7 +114,7 @@ class add_const_rec:
                 and cls_is(the(nth(h._nodes, result.idx)).op, Const) and same_obj(as_cls(the(nth(h._nodes, result.idx)).op, Const).val, value)}
 
 
-@contract("hugr.build.dfg.DfBase.load#value", props=["C14"])
+@contract("hugr.build.dfg.DfBase.load#value", props=["C14", "C16"])
 class load_value:
     """const is a bare value: a Const node holding exactly that value is added first (DefinitionBuilder.add_const:
     recorder here, proved in contracts/add_const.py), under const_parent if given, else under the container; then
@@ -141,5 +150,6 @@ class load_value:
             "P_load_has_the_reported_type": n_a == len(old(self._ta_op)) + 1 and cls_is(op, LoadConst) and notNone(as_cls(op, LoadConst)._typ)
             and same_obj(the(as_cls(op, LoadConst)._typ), ghost("vtype", "Type", const)),
             "P_returns_the_load_node": eq(result, nth(self._ta_node, n_a - 1)),
+            "P_handle_knows_the_output_count": notNone(result._num_out_ports) and the(result._num_out_ports) == reported_outs(op),
             "P_linked_to_the_constant": n_l == len(old(h._tl_src)) + 1 and eq(nth(h._tl_src, n_l - 1), OutPort(c, 0)) and eq(nth(h._tl_dst, n_l - 1), InPort(result, 0)),
         }
